@@ -829,6 +829,22 @@ def check_C17(chk):
     chk.extra["sites_reviewed_or_findings"] = sum(len(v) for v in res.values())
     chk.extra["table_rows_without_live_site"] = ["%s | %s" % k for k in sorted(unreach_rows)]
     # floors: numbers counted on today's tree
+    # the reviewed reasons of several rows rest on a guard that another property's rule decides in full: `marginalize_unchecked` indexes and
+    # removes axes under "no duplicate, all in range, fewer than dimensions" (C04.a); `project_unchecked` under "validated first" (C03.a/b);
+    # the genotype classifier adds two allele indices under "both bounded to {0,1}" (C08.a/b/e).  A weakened guard leaves every site where it
+    # was, so the inventory alone cannot see it.
+    import rules_num as RN17_
+    import rules_geno as RG17_
+    def _guards():
+        RN17_.c04a(chk)
+        RN17_.c03a(chk)
+        RN17_.c03b(chk)
+        g_ = RG17_.GenoFrom(chk)
+        if g_.ok:
+            RG17_.c08a(chk, g_)
+            RG17_.c08b(chk, g_)
+            RG17_.c08e(chk, g_)
+    chk.borrow(_guards, "C17.h", 15)
     chk.floor("C17.a", 2)
     chk.floor("C17.c", 38)
     chk.floor("C17.d", 120)
@@ -844,6 +860,10 @@ def check_C17(chk):
 ARR = "sfs_core::array::"
 C19_OPTION_API = [ARR + "Array::<T>::get", ARR + "Array::<T>::get_mut", ARR + "Array::<T>::get_axis",
                   ARR + "shape::strides::Strides::flat_index", ARR + "shape::removed_axis::RemovedAxis::<'a, T>::get"]
+# functions that run for every array that is built or iterated, whatever its shape (no axes, a zero-length axis, one element): they have no
+# Option to return, so they must not contain a panic-capable site that is not reviewed
+C19_TOTAL_API = [ARR + "shape::Shape::strides", ARR + "shape::Shape::elements", ARR + "Array::<T>::from_element", ARR + "Array::<T>::iter_indices",
+                 ARR + "iter::IndicesIter::<'a>::from_shape", ARR + "view::View::<'a, T>::iter", ARR + "view::iter::Iter::<'a, T>::new"]
 ITERS = {
     ARR + "iter::AxisIter": "<sfs_core::array::iter::AxisIter<'a, T> as core::iter::traits::iterator::Iterator>::",
     ARR + "iter::IndicesIter": "<sfs_core::array::iter::IndicesIter<'a> as core::iter::traits::iterator::Iterator>::",
@@ -924,6 +944,22 @@ def c19a(chk, rows):
         chk.ob("C19.a", "option-api/site/%s/%s" % (fp.split("array::")[-1], sig), ok, sites[0].loc(),
                ("reviewed: " + row["reason"]) if ok else "a panic-capable site in an accessor that must return None instead of panicking has no reviewed discharge (%s)" % (row["reason"] if row else "no row"))
     chk.ob("C19.a", "option-api/auto-discharged", True, "", "%d sites auto-discharged in %d functions" % (len(auto), len(fns)), nontrivial=False)
+    tfns = []
+    for p in C19_TOTAL_API:
+        tf = chk.fn(p)
+        if tf is not None:
+            tfns.append(tf)
+            tfns += [c for c in prog.closures_of(tf.path) if c not in tfns]
+    tres, tauto = collect_sites(prog, tfns)
+    rebalance(chk, prog, tres, rows)
+    for (fp, sig), sites in sorted(tres.items()):
+        row = rows.get((fp, sig))
+        # (rows that C17 lists as open findings - products of axis lengths beyond usize - are reported there, by their exact key, and
+        # are not raised a second time here; what fails here is a site without any row: a new way to panic on some shape)
+        ok = row is not None and len(sites) <= row["count"]
+        chk.ob("C19.a", "total-api/site/%s/%s" % (fp.split("array::")[-1], sig), ok, sites[0].loc(),
+               ("reviewed (%s): " % row["verdict"] + row["reason"]) if ok else "a panic-capable site in a function that runs for arrays of every shape has no reviewed discharge (%s)" % (row["reason"] if row else "no row"))
+    chk.ob("C19.a", "total-api/functions", len(tfns) >= len(C19_TOTAL_API), "", "%d functions (with closures) inventoried, %d sites auto-discharged" % (len(tfns), len(tauto)), nontrivial=False)
     # the get_axis guard: every bounds check on the axis number is dominated by a *strict* bound against dimensions()
     f = chk.fn(ARR + "Array::<T>::get_axis")
     if f is not None:
